@@ -56,7 +56,8 @@ CHECKS = {
          "Pratt table, every consume with its message, statements, attributes, and the context rules: return / break / continue / self / Self / "
          "super placement, duplicate declarations, reads in a variable's own initialiser, a class deriving itself, importing main); under TLC it "
          "predicts for the repository's scripts, ~3 000 mutations of them, all token pairs and 30 000 longer sequences (one token per line) whether "
-         "compilation succeeds and otherwise the first recorded error - offending token, its line, the message - and the compiler must agree exactly.",
+         "compilation succeeds and otherwise the first recorded error - offending token, its line, the message - and the compiler must agree exactly; likewise for the context rules "
+         "(return / break / continue / self / Self / super placement) under every chain of up to three enclosing constructs (11 110 sources).",
     note="After the first recorded error only the recovery discipline is specified, not which later messages appear. Sources with non-ASCII "
          "characters, quotes or backslashes in token texts are not given to the parser twin (TLC strings) but are still compiled and trace-validated. "
          "Unbounded nesting (10^5 open parentheses) is outside the property's stated bounds and is not generated.",
@@ -155,7 +156,8 @@ CHECKS = {
          "define / override / super-call / super-value / omit per level, static methods, constructor chains, fields shadowing methods (also "
          "a field named like a method that an ancestor reaches through super), static methods and constructors read as values through the class, bound "
          "methods in variables and fields, superclass rebinding, local classes and all arities are executed by the machine under TLC and "
-         "replayed on checked and optimised builds. A class may override a method it inherits from Object itself (derives), at any level and with super.derives; subclasses inherit the override. Constructors left by a bare return from inside try / finally, the for statement's protocol members (iter, next) as instance fields, and an instance method that reuses a static method's name in the same class body are part of the product.",
+         "replayed on checked and optimised builds. A class may override a method it inherits from Object itself (derives), at any level and with super.derives; subclasses inherit the override. Constructors left by a bare return from inside try / finally, the for statement's protocol members (iter, next) as instance fields, and an instance method that reuses a static method's name in the same class body are part of the product. Where self / Self / super may be used at all is decided by Parser.tla "
+         "for every chain of up to three enclosing constructs (functions, lambdas, loops, methods / static methods / constructors of classes with and without a superclass declared inside one another; 11 110 sources, accept or first error with line and message).",
     note=MACHINE_NOTE + " Scenario products are built outside TLC; not exhaustive.",
     technique="TLA+ reference machine (TLC) + scenario products replayed on the implementation", design="4 C07"),
  "C05": dict(
